@@ -2,6 +2,7 @@ package main
 
 import (
 	"fmt"
+	"go/token"
 	"strings"
 
 	"golang.org/x/tools/go/ssa"
@@ -163,7 +164,7 @@ func (c *Check) RangeLoop(fn *ssa.Function, name string, over VM) *Loop {
 	if fn == nil {
 		return nil
 	}
-	var found []*Loop
+	var found, foundFor []*Loop
 	for _, b := range fn.Blocks {
 		if len(b.Instrs) == 0 {
 			continue
@@ -181,6 +182,13 @@ func (c *Check) RangeLoop(fn *ssa.Function, name string, over VM) *Loop {
 				}
 				// arrays / len hoisted as constant are not used in this repo
 			}
+		case strings.HasPrefix(b.Comment, "for.loop"):
+			// `for i := 0; i < len(X); i++` over the same operand is the same scan
+			if bo, ok := iff.Cond.(*ssa.BinOp); ok && bo.Op == token.LSS {
+				if _, isPhi := bo.X.(*ssa.Phi); isPhi && Len(over)(bo.Y) {
+					match = true
+				}
+			}
 		case strings.HasPrefix(b.Comment, "rangeiter.loop"):
 			// cond = extract(next(range X), 0)
 			if ex, ok := iff.Cond.(*ssa.Extract); ok {
@@ -194,8 +202,15 @@ func (c *Check) RangeLoop(fn *ssa.Function, name string, over VM) *Loop {
 		if match {
 			lp := &Loop{Name: name, Header: b, Body: b.Succs[0]}
 			lp.Blocks = naturalLoop(fn, b)
-			found = append(found, lp)
+			if strings.HasPrefix(b.Comment, "for.loop") {
+				foundFor = append(foundFor, lp)
+			} else {
+				found = append(found, lp)
+			}
 		}
+	}
+	if len(found) == 0 {
+		found = foundFor // an index loop over the same operand stands in for the range loop
 	}
 	if strings.Contains(name, "#") {
 		// "name#k/n": k-th of exactly n loops over the operand, in block order
